@@ -116,9 +116,37 @@ _REPLAY = {}
 def native_replay(ctx, o):
     """History replay / bounded stand-in for the ray-transfer integrators: trace a ray, assign a new voxel map (box) or mask (cylinder) to
     the SAME object, trace again; the second result is compared with a freshly built object that was given the same map / mask."""
+    from replaylib.native import run_native
+    if 'RayTransferPipeline' in o.name:
+        # one 0D pipeline object kept on a sight line that is moved and observed again: every observation must equal a fresh pipeline's
+        code = """
+import numpy as np
+from raysect.core import SerialEngine
+from raysect.optical import World, Point3D, Vector3D, translate, rotate_basis
+from raysect.optical.observer import SightLine
+from cherab.tools.raytransfer import RayTransferBox, RayTransferPipeline0D
+world = World()
+rtb = RayTransferBox(3., 3., 3., 3, 3, 3, step=0.01, parent=world)
+def sl(p):
+    return SightLine(pipelines=[p], parent=world, pixel_samples=1, spectral_bins=rtb.bins, min_wavelength=500., max_wavelength=501.,
+                     render_engine=SerialEngine(), quiet=True)
+shared = RayTransferPipeline0D(kind='radiance'); s = sl(shared)
+bad = []
+for k, (x, y) in enumerate(((0.5, 0.5), (1.5, 0.5), (2.5, 2.5), (1.5, 1.5))):
+    tr = translate(x, y, -1.0)
+    s.transform = tr; s.observe(); got = np.array(shared.matrix)
+    f = RayTransferPipeline0D(kind='radiance'); t = sl(f); t.transform = tr; t.observe(); want = np.array(f.matrix); t.parent = None
+    if not np.allclose(got, want, rtol=0, atol=1e-9):
+        bad.append({"observation": k + 1, "row_sum_shared_pipeline": float(got.sum()), "row_sum_fresh_pipeline": float(want.sum())})
+print(json.dumps({"bad": bad, "nbad": len(bad)}))
+"""
+        out = run_native(ctx, code, timeout=300)
+        exp = 'each observation of a re-used pipeline equals the observation of a freshly created pipeline'
+        if out and out.get('nbad'):
+            return {'confirmed': True, 'input': out['bad'][0], 'observed': out, 'expected': exp}
+        return {'confirmed': False, 'input': None, 'observed': out, 'expected': exp}
     if 'RayTransferIntegrator' not in o.name:
         return None
-    from replaylib.native import run_native
     code = """
 import numpy as np
 from raysect.optical import World, Ray, Point3D, Vector3D, translate
@@ -156,3 +184,54 @@ print(json.dumps({"bad": bad, "nbad": len(bad)}))
     if out and out.get('nbad'):
         return {'confirmed': True, 'input': out['bad'][0], 'observed': out, 'expected': exp}
     return {'confirmed': False, 'input': None, 'observed': out, 'expected': exp}
+
+
+# ------------------------------------------------------------------------------------------------ pipelines (pipelines.py)
+PL = "cherab/tools/raytransfer/pipelines.py"
+
+
+def _zeros_logged(eng, st, fr, recv, args, kwargs):
+    from pyvc.values import Event
+    o = eng.new_obj(st, 'ndarray', name='zeros')
+    st.log.append(Event('np.zeros', None, list(args), dict(kwargs), o))
+    return o
+
+
+def register_pipelines(reg):
+    """Every observation starts from a matrix of zeros: initialise() stores an array freshly allocated by numpy.zeros with the shape of the
+    observation (the 0D pipeline ACCUMULATES into it, so a re-used buffer would carry the previous observation over)."""
+    import z3
+    ext = {'zeros': {'kind': 'custom', 'fn': _zeros_logged, 'doc': 'numpy.zeros(shape): freshly allocated array of zeros'}}
+
+    def post(shape_text):
+        def f(P):
+            ev = P.calls('np.zeros')
+            out = [("initialise.allocates_zero_matrix", z3.BoolVal(len(ev) >= 1))]
+            if not ev:
+                return out
+            e = ev[-1]
+            m = P.value("self._matrix")
+            out.append(("initialise.matrix_is_the_fresh_zero_array", m.ref == e.result.ref))
+            want = P.value(shape_text)
+            got = e.args[0]
+            want = list(want) if isinstance(want, (tuple, list)) else [want]
+            got = list(got) if isinstance(got, (tuple, list)) else [got]
+            from pyvc.values import to_int
+            out.append(("initialise.shape", z3.And(*[to_int(a) == to_int(b) for a, b in zip(got, want)]) if len(got) == len(want) else z3.BoolVal(False)))
+            return out
+        return f
+    reg.contract(PL, "RayTransferPipeline0D.initialise", PROP, externals=ext, sorts={"spectral_bins": "int"},
+        ensures=[("fresh_zero_matrix", post("(spectral_bins,)")), ("samples_reset", "attr(self, '_samples', 'int') == 0")])
+    reg.contract(PL, "RayTransferPipeline1D.initialise", PROP, externals=ext, sorts={"spectral_bins": "int", "pixels": "int", "pixel_samples": "int"},
+        ensures=[("fresh_zero_matrix", post("(pixels, spectral_bins)"))])
+    reg.contract(PL, "RayTransferPipeline2D.initialise", PROP, externals=ext,
+        sorts={"spectral_bins": "int", "pixels": ("tuple", ["int", "int"]), "pixel_samples": "int"},
+        ensures=[("fresh_zero_matrix", post("(pixels[0], pixels[1], spectral_bins)"))])
+
+
+_register_integrators = register
+
+
+def register(reg):
+    _register_integrators(reg)
+    register_pipelines(reg)
